@@ -2,7 +2,7 @@
 Enumerated: acyclic module graphs on up to 4 generated files (single, chain, fan-in, diamond, diamond + direct edge, chain of 3) x a
 profile per module (x / y private, provided, provided with contract/out; every module also has a private `helper` of the same spelling
 and a provided aggregate that mentions everything it imported) x a modifier per edge (plain, only-in, only-in with renaming, prefix-in,
-prefix-in around only-in, only-in naming a private identifier) x every ordered sequence of up to 3 main programs requiring subsets of
+prefix-in around only-in (with and without renaming), only-in swapping two names, only-in naming a private identifier; the requires of one program in one compilation unit or one unit each) x every ordered sequence of up to 3 main programs requiring subsets of
 the graph on ONE engine (also the same program twice), optionally with the requiring program defining `helper` / `x` itself; plus
 histories in which a module fails (syntax error / free identifier / run-time error in its body) and is corrected and required again.
 Oracle: a Python model of visibility and values – every identifier of the candidate universe (every name x every prefix in play) is
@@ -18,7 +18,8 @@ WORK = os.path.join(common.VERIF, ".work", "c14mod")
 # module profiles: status of x and y: "-" absent, "p" private, "e" exported, "c" exported with contract/out (y only)
 PROFILES = [("e", "e"), ("e", "c"), ("p", "e"), ("e", "p"), ("p", "p"), ("-", "c"), ("e", "-")]
 # edge modifiers
-MODS = ["plain", "only-x", "only-rename", "prefix", "prefix-only", "only-private"]
+MODS = ["plain", "only-x", "only-rename", "prefix", "prefix-only", "prefix-rename", "only-swap", "only-private"]
+NI = 7  # modifiers usable on internal edges (all but the one naming a private identifier)
 
 SHAPES = {
     "single": {"d": []},
@@ -92,6 +93,20 @@ class Model:
             return {prefix + k: v for k, v in ex.items()}
         if mod == "prefix-only":
             return {prefix + k: v for k, v in ex.items() if k == "x"}
+        if mod == "prefix-rename":
+            out = {}
+            if "x" in ex:
+                out[prefix + "x2"] = ex["x"]
+            if "y" in ex:
+                out[prefix + "y"] = ex["y"]
+            return out
+        if mod == "only-swap":
+            out = {}
+            if "x" in ex:
+                out["y"] = ex["x"]
+            if "y" in ex:
+                out["x"] = ex["y"]
+            return out
         if mod == "only-private":
             return {}
         raise ValueError(mod)
@@ -101,6 +116,7 @@ def require_text(path, mod, prefix):
     f = "\"%s\"" % path
     return {"plain": "(require %s)" % f, "only-x": "(require (only-in %s x))" % f, "only-rename": "(require (only-in %s [x x2] y))" % f,
             "prefix": "(require (prefix-in %s %s))" % (prefix, f), "prefix-only": "(require (prefix-in %s (only-in %s x)))" % (prefix, f),
+            "prefix-rename": "(require (prefix-in %s (only-in %s [x x2] y)))" % (prefix, f), "only-swap": "(require (only-in %s [x y] [y x]))" % f,
             "only-private": "(require (only-in %s helper [helper h2]))" % f}[mod]
 
 
@@ -179,11 +195,15 @@ def build_case(shape, profiles, imods, programs, main_defs, cid):
             out |= closure(u)
         return out
     for prog in programs:
+        texts = []
         for t, mod, pf in prog:
-            steps.append(require_text(os.path.join(d, t + ".scm"), mod, pf))
-            exp.append((len(steps) - 1, "require-ok", None))
+            texts.append(require_text(os.path.join(d, t + ".scm"), mod, pf))
             env.update(model.visible(t, mod, pf))
             instantiated |= closure(t)
+        # all requires of a program in one compilation unit, or one unit each
+        for txt in ([" ".join(texts)] if "same-unit" in main_defs else texts):
+            steps.append(txt)
+            exp.append((len(steps) - 1, "require-ok", None))
         for c in cands:
             v = env.get(c)
             if v is None:
@@ -269,18 +289,19 @@ def gen_cases(tier):
     # 2. chain b -> d: profiles of both x internal modifier x main modifier on b, then d
     for prb in PROFILES if thorough else PROFILES[:5]:
         for prd in PROFILES:
-            for im in MODS[:5]:
-                for mm in (MODS if thorough else ("plain", "prefix", "only-rename")):
+            for im in MODS[:NI]:
+                for mm in (MODS if thorough else ("plain", "prefix", "only-rename", "prefix-rename")):
                     add("chain", {"b": prb, "d": prd}, {("b", "d"): im}, [[("b", mm, "p.")]], ("helper",))
                 add("chain", {"b": prb, "d": prd}, {("b", "d"): im}, [[("b", "prefix", "p.")], [("d", "plain", "q.")]], ())
                 add("chain", {"b": prb, "d": prd}, {("b", "d"): im}, [[("d", "prefix", "p.")], [("b", "plain", "q.")]], ())
     # 3. fan-in: two unrelated modules with identical private and provided names, all ordered pairs of modifiers (same prefix on purpose too)
     for prb, prc in itertools.product(PROFILES[:4] if not thorough else PROFILES, repeat=2):
-        for m1, m2 in itertools.product(MODS[:5], repeat=2):
+        for m1, m2 in itertools.product(MODS[:NI], repeat=2):
             if not thorough and (MODS.index(m1) + MODS.index(m2) + PROFILES.index(prb)) % 2:
                 continue
             add("fan-in", {"b": prb, "c": prc}, {}, [[("b", m1, "p."), ("c", m2, "q.")]], ("helper",))
             add("fan-in", {"b": prb, "c": prc}, {}, [[("b", m1, "p.")], [("c", m2, "p.")]], ())
+            add("fan-in", {"b": prb, "c": prc}, {}, [[("b", m1, "p."), ("c", m2, "q.")]], ("same-unit",))
     # 4. diamond: every ordered sequence of up to 3 main programs requiring subsets; internal modifiers vary
     subsets = [[("b", "prefix", "pb.")], [("c", "prefix", "pc.")], [("d", "plain", "pd.")], [("b", "plain", "pb."), ("c", "prefix", "pc.")]]
     seqs = []
@@ -289,13 +310,15 @@ def gen_cases(tier):
     seqs += [[subsets[0], subsets[0]], [subsets[2], subsets[2], subsets[0]]]
     dprofiles = [("e", "c"), ("e", "e"), ("p", "e")] if not thorough else PROFILES[:6]
     for prd in dprofiles:
-        for imb, imc in (itertools.product(MODS[:5], repeat=2) if thorough else (("prefix", "prefix"), ("plain", "prefix-only"), ("only-rename", "plain"), ("only-x", "prefix"))):
+        for imb, imc in (itertools.product(MODS[:NI], repeat=2) if thorough else (("prefix", "prefix"), ("plain", "prefix-only"), ("only-rename", "plain"), ("only-x", "prefix"), ("prefix-rename", "only-swap"))):
             for prb, prc in ((("-", "-"), ("-", "-")), (("e", "e"), ("e", "p")), (("p", "p"), ("e", "c"))):
                 for sq in seqs:
                     add("diamond", {"b": prb, "c": prc, "d": prd}, {("b", "d"): imb, ("c", "d"): imc}, sq, ("helper",))
+                add("diamond", {"b": prb, "c": prc, "d": prd}, {("b", "d"): imb, ("c", "d"): imc}, [[("d", "only-rename", "pd."), ("b", "plain", "pb."), ("c", "prefix", "pc.")]], ("same-unit",))
+                add("diamond", {"b": prb, "c": prc, "d": prd}, {("b", "d"): imb, ("c", "d"): imc}, [[("b", "only-x", "pb."), ("d", "plain", "pd.")], [("c", "prefix-rename", "pc.")]], ("same-unit",))
     # 5. chain of three
     for pra, prb, prd in itertools.product(PROFILES[:3] if not thorough else PROFILES[:5], repeat=3):
-        for im1, im2 in (("prefix", "prefix"), ("plain", "plain"), ("only-rename", "prefix-only")):
+        for im1, im2 in (("prefix", "prefix"), ("plain", "plain"), ("only-rename", "prefix-only"), ("prefix-rename", "only-swap")):
             for sq in ([[("a", "plain", "p.")]], [[("d", "prefix", "p.")], [("a", "plain", "q.")]], [[("a", "prefix", "p.")], [("b", "prefix", "q.")], [("d", "prefix", "r.")]]):
                 add("chain3", {"a": pra, "b": prb, "d": prd}, {("a", "b"): im1, ("b", "d"): im2}, sq, ())
     return cases
